@@ -309,7 +309,7 @@ def explore(tier, seed, res=None, replay=None):
                 "contents at that moment.  Every matrix is also read term by term through the slices "
                 "(dm.common[name], dm.group[name], new[name]) next to term.labels (zero-column terms "
                 "of the one-level factor `one` included)")
-    n_cases = 600 if tier == "quick" else 12000
+    n_cases = 600 if tier == "quick" else 9000
     cases = []
     if replay is not None:
         cases = [(replay["formula"], replay.get("seed_path", 0))]
